@@ -23,7 +23,21 @@ tar cf "$HOLD/files.tar" -T "$HOLD/list" 2>/dev/null && xargs -a "$HOLD/list" rm
 T=0
 for c in ${CRATES//,/ }; do
   echo "== cargo test -p $c with patch" >> "$L"
-  cargo test -p "$c" --offline >> "$L" 2>&1 || T=1
+  if ! cargo test -p "$c" --offline --no-fail-fast > "$WT/out/_crate_$c.log" 2>&1; then
+    cat "$WT/out/_crate_$c.log" >> "$L"
+    # timing-based tests of the repository flake on a loaded machine: re-run each failed test alone, up to 3 times
+    for t in $(grep -E '^test .* \.\.\. FAILED' "$WT/out/_crate_$c.log" | awk '{print $2}' | sort -u); do
+      ok=1
+      for k in 1 2 3; do
+        echo "== rerun $t ($k)" >> "$L"
+        if cargo test -p "$c" --offline -- --exact "$t" >> "$L" 2>&1; then ok=0; break; fi
+      done
+      [ $ok = 0 ] || T=1
+    done
+    grep -qE '^test .* \.\.\. FAILED' "$WT/out/_crate_$c.log" || T=1   # failed without a named test (build error?)
+  else
+    tail -5 "$WT/out/_crate_$c.log" >> "$L"
+  fi
 done
 tar xf "$HOLD/files.tar" 2>/dev/null; rm -rf "$HOLD"
 echo "== cfg check" >> "$L"
